@@ -230,3 +230,90 @@ pub fn any_string(fi: usize) -> BoxedStrategy<(String, String)> {
     ]
     .boxed()
 }
+
+// ---------------------------------------------------------------------------------------
+// bounded-exhaustive token sequences (small-scope hypothesis for the parsers)
+
+/// token alphabet of a format by syntactic role; `core` = the 16 most structural tokens
+pub fn token_alphabet(fi: usize, core: bool) -> Vec<String> {
+    let f = fmts::e(fi);
+    let stamp = format!("{}{}{}", f.sentence.stamp_brackets.0, f.sentence.stamp_present, f.sentence.stamp_brackets.1);
+    let mut v: Vec<String> = vec![
+        f.statement.brackets.0.into(),
+        f.statement.brackets.1.into(),
+        f.statement.copula_inheritance.into(),
+        f.compound.brackets.0.into(),
+        f.compound.brackets.1.into(),
+        f.compound.separator.into(),
+        f.compound.connecter_product.into(),
+        f.compound.connecter_image_extension.into(),
+        f.atom.prefix_placeholder.into(),
+        f.compound.brackets_set_extension.0.into(),
+        f.compound.brackets_set_extension.1.into(),
+        "A".into(),
+        f.atom.prefix_variable_independent.into(),
+        f.task.budget_brackets.0.into(),
+        f.sentence.punctuation_judgement.into(),
+        f.sentence.truth_brackets.0.into(),
+    ];
+    if !core {
+        v.extend([
+            f.statement.copula_instance.to_string(),
+            f.statement.copula_equivalence_concurrent.to_string(),
+            f.compound.connecter_negation.to_string(),
+            f.compound.connecter_conjunction.to_string(),
+            "1".to_string(),
+            "0.5".to_string(),
+            f.sentence.punctuation_question.to_string(),
+            f.sentence.truth_brackets.1.to_string(),
+            f.sentence.truth_separator.to_string(),
+            f.task.budget_brackets.1.to_string(),
+            stamp,
+            f.sentence.stamp_fixed.to_string(),
+            f.atom.prefix_interval.to_string(),
+            " ".to_string(),
+        ]);
+    }
+    v.sort();
+    v.dedup();
+    v
+}
+
+/// every concatenation of 1..=max_len tokens (format tag included)
+pub fn token_sequences(fi: usize, core: bool, max_len: usize) -> Box<dyn Iterator<Item = (usize, String)>> {
+    let alpha = token_alphabet(fi, core);
+    let n = alpha.len();
+    let mut total: usize = 0;
+    let mut p = 1usize;
+    for _ in 0..max_len {
+        p *= n;
+        total += p;
+    }
+    Box::new((0..total).map(move |mut idx| {
+        // decode idx into (length, digits)
+        let mut len = 1usize;
+        let mut block = n;
+        while idx >= block {
+            idx -= block;
+            block *= n;
+            len += 1;
+        }
+        let mut s = String::new();
+        let mut digits = vec![0usize; len];
+        for d in digits.iter_mut().rev() {
+            *d = idx % n;
+            idx /= n;
+        }
+        for d in digits {
+            s.push_str(&alpha[d]);
+        }
+        (fi, s)
+    }))
+}
+
+/// the enumeration used by the totality / well-formedness checks: full alphabet to length 3
+/// (thorough: 4), core alphabet to length 4 (thorough: 5), all three formats
+pub fn token_space(thorough: bool) -> Box<dyn Iterator<Item = (usize, String)>> {
+    let (full_len, core_len) = if thorough { (4, 5) } else { (3, 4) };
+    Box::new((0..3usize).flat_map(move |fi| token_sequences(fi, false, full_len).chain(token_sequences(fi, true, core_len))))
+}
